@@ -17,8 +17,17 @@ import itertools
 import os
 
 from harness import core, shim
-from harness.adapters import tree as T
-from harness.props import _tree_common as G
+
+# the adapters import the repo's intake modules: if that fails (an unexpected shape of the code) the
+# check reports a broken obligation instead of an infrastructure error (LESSONS 7)
+try:
+    from harness.adapters import tree as T
+    from harness.props import _tree_common as G
+    IMPORT_ERROR = None
+except Exception:  # noqa: BLE001
+    import traceback as _tb
+    T = G = None
+    IMPORT_ERROR = _tb.format_exc()
 
 MANIFEST_ENTRY = {
     "text": "Lean theorems over an executable model of the intake (retain_update, check_types, remove_type_placeholders, validate_names, handle_parameter_versioning, parse_parameters): merge_frame (the merged tree holds the user's value on every user leaf path, the default's value on every other leaf path, and every dictionary keeps the default's key list), merge_comm / merge_comm_decidable (two updates that agree wherever both reach - real files share parameter_level / version - commute, so the result does not depend on file order; hypotheses evaluated on every generated pair), writes_swap / files_of_different_levels_swap (accepted virtual_world / outputs / programs / methods files writing different slots can be swapped: same state up to key order), checkTypes_iff with conforms_dict / conforms_list / typeOk_spec (acceptance is exactly: every non-omit key known and every value typed, at any depth, with the code's int-for-float and placeholder rules), accepts_known_typed / rejects_unknown_key / rejects_wrong_type (path-wise), intake_ok_inv with routed_file_checked, sim_settings_checked_and_merged, program_checked_and_merged, section_checked_and_merged, methods_installed (every routed file and every installed method passed check_types and was merged onto its own defaults), intake_frame, no_placeholder_left, reserved_names_rejected; C18_counterexample shows the full-strength statement false because omit keys are exempt at every depth and duplicate level files are last-wins (known findings). The model is tied on every run to the real functions and to InputManager.read_and_validate_parameters end to end on generated YAML / JSON files built from the repo's own default files (random subsets of overridable keys at every level, all file orders for <= 4 files, every single-key corruption, version-gate combinations, placeholder names; key order compared too), and the property's clauses are evaluated directly on the implementation's results.",
@@ -802,8 +811,117 @@ def e2e(ctx, defs):
                             f"a {what} named like a type placeholder is accepted and the placeholder reaches the parameters as a dictionary key",
                             as_input(fs, None, "placeholder-key"))
                 ctx.count("known:placeholder-key")
+        # (6) same-process history
+        history(ctx, defs, run)
     finally:
         run.finish()
+
+
+C18_SOURCES = ["file_processing/input_processing/input_manager.py", "utils/check_parameter_types.py",
+               "initialization/versioning.py"]
+
+
+def check_state_table(ctx):
+    """class- / module-level mutable containers, caches and copy hooks of the intake modules (LESSONS 1):
+    the modelled code has none, so the model's "no history between cases" is justified; a new one
+    re-opens the obligation"""
+    ctx.obligations.append("table:intake-no-cross-case-state")
+    try:
+        rows = T.mutable_state_table(C18_SOURCES)
+    except Exception as e:  # noqa: BLE001
+        ctx.broke("table:intake-no-cross-case-state", f"cannot scan the intake sources: {e!r}")
+        return
+    if rows:
+        ctx.broke("table:intake-no-cross-case-state",
+                  "the intake modules now hold class-/module-level mutable state, caches or copy hooks: " + "; ".join(rows))
+    else:
+        ctx.discharged.append("table:intake-no-cross-case-state")
+
+
+def colliding_pair(rng, defs):
+    """two valid scenarios with the SAME file kinds, program names and method names but different values"""
+    a = gen_scenario(rng, defs, rng.choice([3, 4, None]))
+    df = T.DEF_FILES
+    b = []
+    for (kind, nm, f) in a:
+        level = {"sim": "simulation_settings", "vw": "virtual_world", "program": "programs", "out": "outputs"}.get(kind)
+        if kind == "method":
+            dfile = f.get("default_parameters", df[f["deployment_type"]])
+            g = G.user_subset(rng, defs[dfile], rng.choice([0.2, 0.6]), skip=G.SPECIAL)
+            for k in ("parameter_level", "method_name", "deployment_type", "default_parameters"):
+                if k in f:
+                    g[k] = f[k]
+        else:
+            g = G.user_subset(rng, defs[df[level]], rng.choice([0.2, 0.6]), skip=G.SPECIAL)
+            for k in ("parameter_level", "program_name", "method_labels"):
+                if k in f:
+                    g[k] = f[k]
+        b.append((kind, nm, shuffled(rng, g)))
+    return a, b
+
+
+def history(ctx, defs, run):
+    """same-process history (LESSONS 1): scenarios with colliding names and different values run as
+    A, B, A, B and B, A; every result must be the one the scenario has on its own (specification from
+    the files alone; model without history; for some cases a fresh interpreter); one InputManager
+    reading the same files twice must return the same parameters"""
+    rng = ctx.rng
+    for k in range(ctx.pick(10, 80)):
+        a, b = colliding_pair(rng, defs)
+        seq = [("A", a), ("B", b), ("A", a), ("B", b)] if k % 2 == 0 else [("B", b), ("A", a), ("B", b), ("A", a)]
+        seen = {}
+        for tag, files in seq:
+            r = run.run_real(files, {"class": "history", "n": len(files)})
+            oracle_valid(ctx, defs, files, [(tuple(range(len(files))), r)])
+            c = T.show(r)
+            if tag in seen and seen[tag] != c:
+                ctx.violate("C18:history:result-depends-on-earlier-intakes",
+                            "the same files read again in the same process give different parameters after another intake with the same names",
+                            as_input(files, None, "valid"))
+            seen[tag] = c
+        ctx.nontrivial.add(("history", len(a), k % 2))
+        if k < ctx.pick(2, 8):
+            alone = T.intake_alone([f for (_, _, f) in a])
+            ctx.evaluations += 1
+            ctx.count("history:fresh-interpreter")
+            # the fresh interpreter writes its own YAML: compare on the canonical outcome
+            if alone != seen["A"]:
+                ctx.violate("C18:history:differs-from-fresh-process",
+                            "an intake run after thousands of others in this process differs from the same intake in a fresh interpreter",
+                            as_input(a, None, "valid"))
+    # one manager object, the same files twice
+    from file_processing.input_processing.input_manager import InputManager
+    import contextlib
+    import io
+    for k in range(ctx.pick(6, 40)):
+        files = gen_scenario(rng, defs, rng.choice([2, 3, 4]))
+        paths, _ = run.scratch.write([f for (_, _, f) in files])
+
+        def twice():
+            with T.in_repo(), contextlib.redirect_stdout(io.StringIO()):
+                m = InputManager()
+                r1 = m.read_and_validate_parameters(list(paths))
+                r2 = m.read_and_validate_parameters(list(paths))
+            return [r1, r2]
+
+        r = T.guarded(twice)
+        run.scratch.drop_last()
+        ctx.evaluations += 1
+        if r[0] == "ok" and T.canon(r[1][0]) != T.canon(r[1][1]):
+            ctx.violate("C18:history:same-manager-same-files", "one InputManager reading the same files twice returns different parameters",
+                        as_input(files, None, "valid"))
+        ctx.count("history:same-manager-twice:" + r[0])
+
+
+def stage(ctx, name, fn, *a):
+    """an unexpected crash of a stage is a broken obligation; the other stages still run (LESSONS 7)"""
+    try:
+        fn(*a)
+    except core.InfraError:
+        raise
+    except Exception:  # noqa: BLE001
+        import traceback
+        ctx.broke(f"stage {name} crashed", traceback.format_exc())
 
 
 def run(ctx):
@@ -816,13 +934,27 @@ def run(ctx):
                 "beyond), their single-key corruptions, duplicate level files. non-trivial = distinct (component, level, "
                 "corruption class, depth, outcome) / (file kinds, uses default_parameters) keys")
     core.lean_stage(ctx, MODULE, FILE, drivers=["drv_tree"])
-    check_constants(ctx)
-    defs = T.load_defaults()
-    comp_check(ctx, defs)
-    comp_merge(ctx, defs)
-    comp_strip(ctx, defs)
-    comp_names(ctx)
-    e2e(ctx, defs)
+    if IMPORT_ERROR is not None:
+        ctx.obligations.append("import of the intake modules")
+        ctx.broke("import of the intake modules", IMPORT_ERROR)
+        return
+    stage(ctx, "constants", check_constants, ctx)
+    stage(ctx, "state-table", check_state_table, ctx)
+    try:
+        defs = T.load_defaults()
+    except Exception as e:  # noqa: BLE001
+        ctx.broke("default parameter files", f"cannot load src/default_parameters: {e!r}")
+        return
+    stage(ctx, "check_types", comp_check, ctx, defs)
+    stage(ctx, "retain_update", comp_merge, ctx, defs)
+    stage(ctx, "remove_type_placeholders", comp_strip, ctx, defs)
+    stage(ctx, "validate_names", comp_names, ctx)
+    stage(ctx, "end-to-end", e2e, ctx, defs)
+    for (fn, arg, before, after) in T.INPUT_MUTATIONS[:20]:
+        ctx.violate(f"C18:history:input-modified:{fn}:{arg}",
+                    f"{fn} modifies its argument `{arg}` (shared between calls): {before[:120]} -> {after[:120]}",
+                    {"op": "mutation", "function": fn, "argument": arg, "before": before, "after": after})
+    ctx.count("input-mutation-checks", 1)
     ctx.assumptions.append("order independence is claimed for file sets with at most one virtual_world / outputs file and distinct program and method names")
     ctx.assumptions.append("YAML files are written with yaml.safe_dump and read back with the InputManager's own loader; the model receives exactly what that loader returns")
 
@@ -830,6 +962,12 @@ def run(ctx):
 def replay(ctx, data):
     inp = data.get("input", {})
     op = inp.get("op")
+    if IMPORT_ERROR is not None:
+        print("replay: the intake modules cannot be imported:", IMPORT_ERROR[-400:])
+        return 1
+    if op == "mutation":
+        print("replay:", inp["function"], "modified its argument", inp["argument"], ":", inp["before"][:200], "->", inp["after"][:200])
+        return 1
     defs = T.load_defaults()
     if op == "check":
         r = T.real_check(inp["omit"], inp["default"], inp["test"])
